@@ -1,0 +1,25 @@
+//go:build verif
+// +build verif
+
+// Package verifhook is a test-only observation point used by the external
+// verification harness. It is compiled in only with the `verif` build tag;
+// without the tag Emit is an empty function (see hook_off.go).
+package verifhook
+
+import "sync/atomic"
+
+type handlerFn func(point string, args ...interface{})
+
+var handler atomic.Value
+
+// Set installs the handler called by Emit (nil removes it).
+func Set(h func(point string, args ...interface{})) {
+	handler.Store(handlerFn(h))
+}
+
+// Emit calls the installed handler synchronously in the calling goroutine.
+func Emit(point string, args ...interface{}) {
+	if h, ok := handler.Load().(handlerFn); ok && h != nil {
+		h(point, args...)
+	}
+}
